@@ -23,8 +23,8 @@ func (t *Dense) T(axes ...int) (err error) {
 
 		// check if the current axes are just a reverse of the previous transpose's
 		isReversed := true
-		for i, s := range t.oshape() {
-			if transform.Shape()[i] != s {
+		for i, a := range axes {
+			if t.transposeWith[a] != i {
 				isReversed = false
 				break
 			}
